@@ -7,3 +7,7 @@ package syntax
 //@ func MakePosition
 //@   pure
 //@   ensures result.file == file && result.Line == line && result.Col == col
+
+// ---- determinism and thread-compatibility (C03, C05): no function of the package writes a
+// package-level variable at run time (what one execution left there another would read)
+//@ globals_readonly [C03,C05] none
